@@ -47,6 +47,21 @@ func c05Scenarios(thorough bool) []*explore.Scenario {
 			}
 		}
 	}
+	// S4: the current segment is the (only) compaction candidate; writers land in it between pick and seal
+	{
+		L := []explore.Op{op(explore.Delete, "a"), op(explore.Put, "a"), op(explore.Delete, "e"), op(explore.Put, "n"), op(explore.Delete, "b")}
+		for i, w := range L {
+			scs = append(scs, &explore.Scenario{Name: fmt.Sprintf("CW1-S4-%d", i), Base: "S4", Cfg: "ROLL", Threads: []explore.ThreadProg{{op(explore.Compact, "")}, {w}}, Bound: -1, Record: true})
+		}
+		for i, w1 := range L {
+			for j, w2 := range L {
+				if i == j || (!thorough && (i+2*j)%3 != 0) {
+					continue
+				}
+				scs = append(scs, &explore.Scenario{Name: fmt.Sprintf("CW2-S4-%d%d", i, j), Base: "S4", Cfg: "ROLL", Threads: []explore.ThreadProg{{op(explore.Compact, "")}, {w1, w2}}, Bound: -1, Record: true})
+			}
+		}
+	}
 	// compaction of a chained index with colliding hashes: promotion must repoint the right slot
 	for i, w := range []explore.Op{op(explore.Put, "o0"), op(explore.Put, "x"), op(explore.Delete, "o1")} {
 		scs = append(scs, &explore.Scenario{Name: fmt.Sprintf("CC-%d", i), Base: "CC", Cfg: "ROLL", Threads: []explore.ThreadProg{{op(explore.Put, "c0"), op(explore.Compact, "")}, {w}}, Bound: 2, Record: false})
